@@ -16,6 +16,10 @@ var xfCode = map[string]string{
 		var r = [];
 		for (e of entities) { r.push(e); r.push(e); }
 		return r; }`,
+	// in place: the array the hub handed over is changed and returned
+	"pushfirst":   `function transform_entities(entities) { if (entities.length > 0) { entities.push(entities[0]); } return entities; }`,
+	"unshiftlast": `function transform_entities(entities) { if (entities.length > 0) { entities.unshift(entities[entities.length-1]); } return entities; }`,
+	"popdrop":     `function transform_entities(entities) { entities.pop(); return entities; }`,
 	"dropdel": `function transform_entities(entities) {
 		var r = [];
 		for (e of entities) { if (!e.IsDeleted) { r.push(e); } }
